@@ -37,7 +37,7 @@ pub fn gen(rng: &mut Prng, small: bool) -> Cfg {
     if aimd {
         Cfg { aimd, initial: max, max, min: rng.range(0, max), dep: *rng.pick(&[1u64, 1, 2, 3]), wd: rng.range(1, 2).min(max), withdrawers, depositors, ops }
     } else {
-        Cfg { aimd, initial: rng.range(0, 3).min(max), max, min: 0, dep: 1, wd: 1, withdrawers, depositors, ops }
+        Cfg { aimd, initial: if rng.chance(0.15) { max + rng.range(1, 6) } else { rng.range(0, 3).min(max) }, max, min: 0, dep: 1, wd: 1, withdrawers, depositors, ops }
     }
 }
 
@@ -80,6 +80,7 @@ pub struct History {
 /// the client boundary.
 pub fn run_round(cfg: &Cfg, budget: Arc<dyn RetryBudget>, yield_between: bool) -> History {
     let clock = Arc::new(AtomicU64::new(1));
+    let balance_before = budget.balance() as u64;
     let n = cfg.withdrawers + cfg.depositors;
     let barrier = Arc::new(Barrier::new(n + 1));
     let stop = Arc::new(AtomicBool::new(false));
@@ -134,7 +135,7 @@ pub fn run_round(cfg: &Cfg, budget: Arc<dyn RetryBudget>, yield_between: bool) -
         ops.extend(h.join().unwrap());
     }
     stop.store(true, Ordering::SeqCst);
-    let max_sampled = sampler.join().unwrap();
+    let max_sampled = sampler.join().unwrap().max(balance_before);
     ops.sort_by_key(|o| o.call);
     History { ops, final_balance: budget.balance() as u64, max_sampled }
 }
@@ -197,7 +198,8 @@ pub fn linearizable(cfg: &Cfg, h: &History, node_cap: u64) -> Option<bool> {
         }
         Some(false)
     }
-    go(cfg, h, 0, cfg.initial, &mut seen, &mut nodes, node_cap)
+    // an initial balance above the maximum is capped: the balance never exceeds the maximum
+    go(cfg, h, 0, cfg.initial.min(cfg.max), &mut seen, &mut nodes, node_cap)
 }
 
 pub fn render(h: &History) -> Vec<String> {
@@ -255,10 +257,52 @@ fn history_sig(h: &History) -> u64 {
     f.0
 }
 
+/// Extreme but valid sizes: the budget must be constructible and keep its balance within the maximum.
+fn extreme(rng: &mut Prng, rep: &mut Report) {
+    let big = [usize::MAX, usize::MAX / 1000, usize::MAX / 1000 + 1, 1usize << 61, (1usize << 54) + 1, u32::MAX as usize];
+    let max = *rng.pick(&big);
+    let initial = *rng.pick(&[0usize, 1, max, usize::MAX, max / 2]);
+    let aimd = rng.chance(0.3);
+    crate::sim::install_panic_hook();
+    let r = std::panic::catch_unwind(|| {
+        let b: Arc<dyn RetryBudget> = if aimd {
+            RetryBudgetBuilder::new().aimd().min_budget(0).max_budget(max).build()
+        } else {
+            RetryBudgetBuilder::new().token_bucket().max_tokens(max).initial_tokens(initial).build()
+        };
+        let b0 = b.balance();
+        let g = b.try_withdraw();
+        b.deposit();
+        (b0, g, b.balance())
+    });
+    let kind = if aimd { "aimd" } else { "token" };
+    match r {
+        Err(_) => rep.violate(
+            format!("C08:{kind}:panic-at-extreme-config"),
+            format!("budget with max {max} and initial {initial} panicked: {}", crate::sim::take_last_panic().unwrap_or_default()),
+        ),
+        Ok((b0, granted, b1)) => {
+            if b0 > max || b1 > max {
+                rep.violate(format!("C08:{kind}:balance-above-max"), format!("budget with max {max}, initial {initial}: balance {b0} at construction, {b1} after one withdraw and one deposit"));
+            }
+            if granted && b0 == 0 {
+                rep.violate(format!("C08:{kind}:over-granted"), format!("budget with max {max}, initial {initial}: a retry was granted from an empty budget"));
+            }
+            if !aimd && initial > 0 && initial <= max && !granted {
+                rep.count("extreme_budget_refused_although_funded", 1);
+            }
+        }
+    }
+    rep.count("extreme_configurations", 1);
+}
+
 /// Native stress: `rounds` small rounds (linearizability + conservation) on real threads.
 pub fn stress(sseed: u64, rounds: u64) -> Report {
     let mut rng = Prng::new(sseed);
     let mut rep = Report::default();
+    for _ in 0..8 {
+        extreme(&mut rng, &mut rep);
+    }
     let mut sigs: HashSet<u64> = HashSet::new();
     let mut overlapping = 0u64;
     let mut last_cfg = None;
